@@ -71,7 +71,7 @@ def main():
         try:
             make_copy(root)
             env = dict(os.environ, PYTHONPATH=root, OMP_NUM_THREADS="1", OPENBLAS_NUM_THREADS="1")
-            p0 = sh(["/venv/bin/python", os.path.join(d, "demo.py")], env=env, cwd=root)
+            p0 = sh(["timeout", "900", "/venv/bin/python", os.path.join(d, "demo.py")], env=env, cwd=root)
             ver["demo_on_original_exit"] = p0.returncode
             pa = sh(["patch", "-p1", "-i", os.path.join(d, "patch.diff")], cwd=root)
             ver["patch_applied"] = pa.returncode == 0
@@ -83,7 +83,7 @@ def main():
                 if pc.returncode != 0:
                     ver["cpp_patch_error"] = (pc.stdout + pc.stderr)[-500:]
                 ver["so_rebuilt"] = rebuild_so(root)
-            p1 = sh(["/venv/bin/python", os.path.join(d, "demo.py")], env=env, cwd=root)
+            p1 = sh(["timeout", "900", "/venv/bin/python", os.path.join(d, "demo.py")], env=env, cwd=root)
             ver["demo_on_changed_exit"] = p1.returncode
             ver["demo_on_changed_tail"] = (p1.stdout + p1.stderr)[-300:]
             if tests:
